@@ -16,6 +16,7 @@ import BV.Lemmas.Header
 import BV.Lemmas.HeaderB128
 import BV.Lemmas.HeaderMagic
 import BV.Lemmas.HeaderStart
+import BV.Model.Stored
 
 namespace BV.Props.C15
 open BV.Bits BV.Bits.Out BV.Header BV.HeaderSpec
@@ -79,6 +80,26 @@ def exampleQ1 : Params where
 
 example : ∃ st, streamStart true exampleQ1 [97, 98] = ok st ∧ (readWbits st.bits).map (·.1) = some 18 :=
   ⟨_, rfl, by decide⟩
+
+/-- the one-shot call (`encoder_compress`, no `large_window` argument): it asks for
+large windows exactly when `lgwin > 24`, so its streams declare
+`clamp(lgwin, 10, lgwin > 24 ? 30 : 24)` (18 at least for quality ≤ 1) in the
+large form iff `lgwin > 24` — in particular the normal form for `lgwin = 24`. -/
+theorem oneshot_declared_window (quality lgwin : Int) (n : Nat) (rest : List Bool) :
+    readWbits (pendingWriter (ensureInitialized true (BV.Stored.oneshotParams quality lgwin n)) ++ rest)
+      = some ((clampWindow quality lgwin (decide (lgwin > 24))).toNat, decide (lgwin > 24), rest) := by
+  rw [declared_window]
+  have hq : clampWindow (BV.Stored.oneshotParams quality lgwin n).quality lgwin (decide (lgwin > 24))
+      = clampWindow quality lgwin (decide (lgwin > 24)) := by
+    simp only [BV.Stored.oneshotParams, lit, BV.Gen.lits_encoder_compress, List.getD_cons_zero,
+      List.getD_cons_succ, clampWindow]
+    split <;> simp <;> omega
+  show some ((clampWindow (BV.Stored.oneshotParams quality lgwin n).quality lgwin (decide (lgwin > 24))).toNat,
+    decide (lgwin > 24), rest) = _
+  rw [hq]
+
+example : (BV.Stored.oneshotParams 5 24 3).largeWindow = false ∧ (BV.Stored.oneshotParams 5 25 3).largeWindow = true := by
+  decide
 
 /-- `large_header_iff_requested`: the 14-bit large-window form is used exactly when
 `large_window` was requested (whatever lgwin) -/
